@@ -302,7 +302,7 @@ def tu_source(group, s, src=None):
         L.append('static ad::Registrar reg_(&ad::Conv<TrD, TrS>::reg);')
     else:
         L.append(traits(s))
-        cls = {'core': 'Core', 'io': 'Io', 'thr': 'Thr'}[group]
+        cls = {'core': 'Core', 'io': 'Io', 'thr': 'Thr', 'dmp': 'Dmp'}[group]
         L.append('static ad::Registrar reg_(&ad::%s<Tr>::reg);' % cls)
     L.append('}')
     return '\n'.join(L) + '\n'
